@@ -526,6 +526,7 @@ class Monitor:
 					return
 				if exp is not None:
 					exp["src"] = kw["src"]
+					exp["req_len"] = len(kw["data"])
 					exp["t"] = t
 					exp["T"] = T
 					self.pending_rsp[port] = exp
@@ -644,7 +645,8 @@ class Monitor:
 				clause = "ctrl.response-mismatch"
 				if exp["verb"] == "POWERON":
 					clause = "power.poweron-status"
-				self.bad(clause, trx=T.label(), got=repr(body[:100]), want=repr(head[:100]), results=str(res)[:40])
+				self.bad(clause, trx=T.label(), got=repr(body[:100]), want=repr(head[:100]), results=str(res)[:40],
+					got_len=len(body), want_len=len(head), request_octets=exp.get("req_len"))
 		else:
 			# status is a don't-care: "RSP <verb> <integer> <original arguments>"
 			rx = r"^RSP %s -?\d+%s$" % (re.escape(exp["verb"]), re.escape((" " + " ".join(post)) if post else ""))
@@ -794,7 +796,8 @@ class Monitor:
 				continue
 			if e.suppress == "maybe":
 				suppressed += 1
-				if R.ver == 1 and "drop" not in R.taint:
+				if R.ver == 1 and "drop" not in R.taint and e.invalid == "no":
+					# neither the burst nor a NOPE.ind: on a v1 link one of the two must appear
 					self.bad("drop.nope-missing", fn=fn, trx=R.label(), tn=e.b.tn, why="drop counter")
 				continue
 			if e.invalid in ("must", "may"):
@@ -815,7 +818,7 @@ class Monitor:
 			maybe = [e for e in exps if e.suppress == "maybe" and not e.optional]
 			sure = sum(1 for e in maybe if (e.matched is not None and e.matched.get("nope")) or
 				(e.matched is None and e.invalid == "no"))
-			possible = sure + sum(1 for e in maybe if e.matched is None and e.invalid != "no")
+			possible = sure + (sum(1 for e in maybe if e.matched is None and e.invalid != "no") if R.ver == 0 else 0)
 			if not (sure <= drop_k <= possible):
 				self.bad("drop.count", fn=fn, trx=R.label(), suppressed=(sure, possible), want=drop_k)
 
